@@ -22,6 +22,19 @@ theorem flushPage_pages (env : Env) (s : St) :
 theorem setAlpha_inText (p : Page) (k pr : Bytes) : (p.setAlpha k pr).inText = p.inText := by
   unfold Page.setAlpha; split <;> (try split) <;> simp [Page.write]
 
+theorem setGradient_inText (env : Env) (p : Page) (st : Bool) (k a1 : Bytes) :
+    (p.setGradient env st k a1).inText = p.inText := by
+  unfold Page.setGradient
+  cases st
+  · simp only [Bool.false_eq_true, if_false]
+    split
+    · exact setAlpha_inText p _ _
+    · simp [Page.write, setAlpha_inText]
+  · simp only [if_true]
+    split
+    · exact setAlpha_inText p _ _
+    · simp [Page.write, setAlpha_inText]
+
 theorem embedImage_pages (env : Env) (s : St) (id : Nat) : (embedImage env s id).1.pages = s.pages := by
   unfold embedImage; split <;> rfl
 
@@ -52,6 +65,7 @@ theorem step_pages (env : Env) (s s' : St) (op : Op) (h : step env s op = some s
   | pageWrite bs => simp [step] at h; obtain ⟨p, hp, rfl⟩ := h; simp [pagesSoFar, isNewPage, hp]
   | setAlpha k pr => simp [step] at h; obtain ⟨p, hp, rfl⟩ := h; simp [pagesSoFar, isNewPage, hp]
   | addURI u a b c d => simp [step] at h; obtain ⟨p, hp, rfl⟩ := h; simp [pagesSoFar, isNewPage, hp]
+  | setGradient st k a1 => simp [step] at h; obtain ⟨p, hp, rfl⟩ := h; simp [pagesSoFar, isNewPage, hp]
   | startText =>
     simp only [step] at h
     split at h
@@ -150,6 +164,9 @@ theorem text_run (env : Env) : ∀ (ops : List Op) (s s' : St), run env s ops = 
       | addURI u a b c d =>
         simp [step] at h1; obtain ⟨p, hp, rfl⟩ := h1
         simpa [textOK, inText, hp] using ih
+      | setGradient st k a1 =>
+        simp [step] at h1; obtain ⟨p, hp, rfl⟩ := h1
+        simpa [textOK, inText, hp, setGradient_inText] using ih
       | startText =>
         simp only [step] at h1
         split at h1
